@@ -17,7 +17,7 @@ RULE = (
 ASSUMPTIONS = [
     "plate position = 1 + c*rows + r (both devices); trough: EVO 1 + c*virtual_rows + vr, Fluent 1 + c",
     "a non-existent id = an id that is not an element of Labware.wells (row/column out of range, unpadded, lower case, two letters, empty, trailing blank, three digits)",
-    "after a refused operation only records for the *valid* wells of the same call may exist (C; label lines are not positioned records)",
+    "after a refused transfer only records for the *valid* pairs of the same call may exist (C; label lines are not positioned records); after a refused aspirate/dispense/distribute/evo_* call the worklist is empty, label comment included",
 ]
 BUDGET = {"quick": (4, 150), "thorough": (16, 1500)}
 ENUM_SPACE = {
@@ -269,6 +269,9 @@ def _badid_case(obs, case):
     else:
         obs.bad("C08/bad-id-accepted", f"{op} on {'trough' if trough else 'plate'} {rows}x{cols} accepted the non-existent id {bad!r}")
     obs.cls("op:" + op, "style:" + case["style"])
+    if not op.startswith("transfer") and len(wl) > 0:
+        # "raise without emitting a record": a single call on one labware leaves nothing at all, the label comment included
+        obs.bad("C08/record-after-bad-id", f"{op} with non-existent id {bad!r} ({device}, label={label!r}) left {list(wl)[:4]}")
     for rec in wl:
         if rec.startswith("C;"):
             continue
